@@ -66,6 +66,9 @@ func seqProfile(prop string, cas int, tier string) Profile {
 			p.NearFull = true
 			p.DiskBlocks = []uint64{1650, 2300}[(cas/4)%2]
 		}
+		if cas%4 == 0 {
+			p.Recycle = true // sparse bursts around the index-range borders, shrink/regrow
+		}
 		if cas%8 == 1 {
 			p.ManyObjs = 45 // multi-block directories, one of them with long names only
 			p.HotSet = 4
@@ -116,7 +119,14 @@ func seqProfile(prop string, cas int, tier string) Profile {
 		p.W[OpMkdir] *= 2
 		p.W[OpSymlink] *= 3
 		p.W[OpRename] *= 2
-		p.Big = cas%4 == 3 // oversized requests the journal rejects
+		p.Big = cas%4 == 3 // oversized requests
+		if cas%10 == 9 {
+			// room enough for a request to get as far as a commit that the
+			// journal rejects (on the nearly full disks it fails earlier)
+			p.NearFull = false
+			p.DiskBlocks = 6000
+			p.JournalReject = true
+		}
 		if tier == "thorough" && cas%200 == 9 {
 			// a nearly exhausted inode table (32 k objects: every full comparison is slow, so only a few cases)
 			p.InodeExhaust = true
@@ -140,6 +150,9 @@ func seqProfile(prop string, cas int, tier string) Profile {
 			p.NearFull = false
 			p.DiskBlocks = 40000
 			p.ManyObjs = 30
+		}
+		if cas%16 == 3 {
+			p.JournalReject = true
 		}
 	case "C12":
 		p.NOps = 220
@@ -596,6 +609,10 @@ func propSpecs() map[string]PropSpec {
 			var js []Job
 			for i := 0; i < n; i++ {
 				js = append(js, Job{Engine: "census", Profile: "C06", Seed: seed, Case: i})
+			}
+			for i := 0; i < 6; i++ {
+				// requests parked inside a disk read with waiters behind them while the inode cache turns over
+				js = append(js, Job{Engine: "dgate", Profile: "C06", Seed: seed, Case: i})
 			}
 			return withWindow(withConc(func(string, uint64) []Job { return js }, "C06", 64, 800, false), "C06")(tier, seed)
 		},
